@@ -344,6 +344,16 @@ def run_c05(chk):
         for i in range(0, len(sx), 40):
             cases.append(({"root": ("E", "r", {}, [], []), "heads": [], "tails": [], "dtd": None}, sd, [("lit", q) for q in sx[i:i + 40]]))
             qs.append((sd, XP.BINDINGS, sx[i:i + 40]))
+    # name tests on the NAMESPACE axis name a prefix, not a URI: no binding of the caller - in particular not the caller's default
+    # namespace - enters them (round-9 seed C05-N let the default namespace into every QName test off the element axis)
+    nsax = ["count(//namespace::p)", "count(//namespace::xml)", "count(//namespace::q)", "//d/namespace::p/..", "count(//*/namespace::*)",
+            "//c/namespace::q/..", "count(//namespace::*[name() = 'p'])", "count(//@*/../namespace::p)", "//*[namespace::q]",
+            "count(//namespace::zz)", "//processing-instruction('t')", "count(//processing-instruction('t'))", "//@a", "//@p:a"]
+    for nd in ("<r xmlns:p='urn:p'><c xmlns:q='urn:q' p:a='1' a='2'/><?t x?><d xmlns='urn:d'/></r>",
+               "<r xmlns='urn:u1' xmlns:p='urn:u1'><a xmlns:q='urn:u2' a='1'><q:b/><?t y?></a></r>"):
+        for bnd in ("=urn:d;p=urn:p;q=urn:q", "=urn:u1;p=urn:u1;q=urn:u2", "=urn:p", XP.BINDINGS):
+            cases.append(({"root": ("E", "r", {}, [], []), "heads": [], "tails": [], "dtd": None}, nd, [("lit", q) for q in nsax]))
+            qs.append((nd, bnd, nsax))
     ax = []
     for axn in G.AXES:
         for start in ("/node()", "//node()", "/comment()", "/processing-instruction()", "//@*", "/", "/*", "//text()", "/node()[last()]"):
@@ -829,6 +839,23 @@ def run_c07(chk):
                 mfail.append((t_, "dom history: " + " ".join(ops_[:i]), "a node-set on the edited document differs from the same on a "
                               "fresh parse of its serialization", q[:600]))
                 break
+    # ... and in the text-expanded view (the view xq / xe use: character data, CDATA sections and references are ONE text node),
+    # where an existing text node is moved by its own code path (round-9 seed C07-N: that path did not mark the order stale)
+    xcases_ = DC.histories(rng, 300 if thorough else 120, 6, 0.1)
+    ximpl_ = lib.run_lines(lib.build_harness(), [lib.req("domx", t_, DC.battery("//text();//node();//text()|//*;(//text()|//*)[1]"), *ops_)
+                                                  for t_, ops_ in xcases_], timeout=900, per_line_resume=True)
+    for (t_, ops_), a in zip(xcases_, ximpl_):
+        for i, x in enumerate(D.split_records(a)):
+            chk.count(["edited-expanded", t_] + ops_[:i], nontrivial=i > 0 and x["status"].startswith("ok"))
+            v, q = x["flags"].get("ord"), x["flags"].get("q")
+            if v is not None and v != "ok":
+                mfail.append((t_, "dom history (text-expanded view): " + " ".join(ops_[:i]), "document-order keys of the edited document "
+                              "are not increasing along the tree walk (node-sets come out of order or lose nodes)", v))
+                break
+            if q is not None and q not in ("ok", "skip") and "SIDE-EFFECT" not in q:
+                mfail.append((t_, "dom history (text-expanded view): " + " ".join(ops_[:i]), "a node-set on the edited document differs "
+                              "from the same on a fresh parse of its serialization", q[:600]))
+                break
     # ... and the same after calls made WITHOUT reading anything in between (see domchecks.quiet_stream)
     qm_, qt_, qn_ = DC.quiet_stream(chk, rng, 200 if thorough else 80, queries=DC.battery("//node()[not(self::text())];(//*|//comment())[last()]"))
     for t_, ops_, i_, why_, det_ in qm_:
@@ -989,7 +1016,9 @@ def run_c08(chk):
     ndocs, nexpr = (300, 8) if thorough else (80, 6)
     cases = XP.gen_cases(rng, ndocs, nexpr)
     SP = [dict(abbrev=True), dict(abbrev=False), dict(abbrev=True, ws=True), dict(abbrev=False, ws=True),
-          dict(abbrev=True, parens=True), dict(abbrev=False, ws=True, parens=True)]
+          dict(abbrev=True, parens=True), dict(abbrev=False, ws=True, parens=True),
+          # (round-9 seed C08-N: a path of ONE step was not put into document order, the same path behind `./` was)
+          dict(abbrev=True, selfstep=True), dict(abbrev=False, selfstep=True)]
     fixed = [("1 + 2 * 3", "n"), ("(1 + 2) * 3", "n"), ("2 * 3 + 1", "n"), ("10 - 2 - 3", "n"), ("2 * 6 div 4", "n"), ("7 mod 4 * 2", "n"),
              ("1 < 2 = true()", "b"), ("1 = 1 < 2", "b"), ("0 or 1 and 0", "b"), ("1 or 0 and 0", "b"), ("-1 - -1", "n"), ("- - 2", "n"),
              ("3 > 2 > 1", "b"), ("1 + 1 = 2 and 2 * 2 = 4", "b"), ("-2 * 3", "n"), ("8 div 2 div 2", "n"), ("2 + 3 mod 2", "n"),
